@@ -164,8 +164,8 @@ fn soak(cap: usize, steps: usize) -> Option<(String, String)> {
         // bursts: A for a while, then B for a while, lengths cycling through 1..=2*cap+1; for the
         // 16-bit boundary capacities: A runs a full capacity ahead, B catches up, B runs a full
         // capacity ahead, A catches up, and so on
-        let burst = if cap >= 60_000 { cap } else { 1 + (t / 7) % (2 * cap + 1) };
-        let want = if cap >= 60_000 { [0, 1, 1, 0][(t / burst) % 4] } else { (t / burst) % 2 };
+        let burst = if cap >= 1000 { cap } else { 1 + (t / 7) % (2 * cap + 1) };
+        let want = if cap >= 1000 { [0, 1, 1, 0][(t / burst) % 4] } else { (t / burst) % 2 };
         let mut p = r.pos;
         p[want] += 1;
         if p[0].abs_diff(p[1]) <= cap {
@@ -411,7 +411,7 @@ fn main() {
         }
     }
     // 16-bit boundary probes: the lead reaches a full capacity of 2^16 +- 1 frames
-    let big: Vec<usize> = vec![65535, 65536, 65537];
+    let big: Vec<usize> = vec![1024, 4096, 44100, 48000, 65535, 65536, 65537];
     big.par_iter().for_each(|&cap| {
         let steps = 9 * cap + 200;
         let case = json!({"sys":"fork_soak","cap":cap,"steps":steps});
@@ -421,7 +421,7 @@ fn main() {
             ctx.violation(&k, case, m, Some(&|| soak(cap, steps).map(|e| e.1)));
         }
     });
-    ctx.rule("16-bit boundary probes: capacities 65535, 65536, 65537: one interleaving of 9 x capacity pulls in which each branch in turn runs a full capacity ahead and the other catches up (by_ref re-split every 97 steps, then by_rc), same checks after every pull");
+    ctx.rule("16-bit boundary and audio-typical capacities 1024, 4096, 44100, 48000, 65535, 65536, 65537: one interleaving of 9 x capacity pulls in which each branch in turn runs a full capacity ahead and the other catches up (by_ref re-split every 97 steps, then by_rc), same checks after every pull");
     ctx.rule(&format!("soak probes: one deterministic interleaving of {soak_steps} pulls (bursts of cycling length, always inside the boundary) per capacity in 1,2,3,5,8,48,64,96 on a single fork: by_ref re-split every 97 steps for the first half, by_rc for the second (single executions, labelled)"));
     ctx.set("exhaustive", json!(true));
     ctx.set("exhaustive_scope", json!(format!("every in-boundary interleaving up to length {len} for capacities 1..=4 (unmerged); the merged run reaches a fixpoint of (lead, ring phase) and so covers longer histories under the stated abstraction")));
